@@ -1284,6 +1284,12 @@ def eval_transform(ctx, raw):
         return bool(DECIMAL.match(s))
 
     def val(s):
+        m = re.match(r'^([+-]?)([\d.]+)(?:[eE]([+-]?\d+))?$', s)
+        e = int(m.group(3) or 0)
+        if abs(e) > 2000:
+            zero = float(Fraction(m.group(2))) == 0.0
+            v = 0.0 if (e < 0 or zero) else math.inf
+            return -v if m.group(1) == '-' else v
         try:
             return float(Fraction(s))
         except OverflowError:
